@@ -84,6 +84,7 @@ var c11raceGroups = []struct {
 	name  string
 	sites []string
 }{
+	{"nodeCache", []string{"(*SimpleNode).AddNode", "(*SimpleNode).DeleteNode", "(*SimpleNode).SetNodes", "NodesWithTag"}},
 	{"DateNode.parsedDateRange", []string{"(*DateNode).DateRange"}},
 	{"FamilyNode.husband", []string{"(*FamilyNode).Husband"}},
 	{"FamilyNode.wife", []string{"(*FamilyNode).Wife"}},
@@ -94,7 +95,16 @@ var c11raceGroups = []struct {
 		"(*StringSet).Iterate", "(*StringSet).Intersects"}},
 }
 
+// c11racePairs: known racing pairs that are not "every pair within a set of sites".
+var c11racePairs = map[string]string{
+	"createJobs~createJobs": "IndividualNodesCompareOptions.shared",
+	"(*IndividualNodesCompareOptions).adjustTotal~createJobs": "IndividualNodesCompareOptions.shared",
+}
+
 func c11raceKey(a, b string) string {
+	if g, ok := c11racePairs[a+"~"+b]; ok {
+		return "c11-race:" + g
+	}
 	for _, g := range c11raceGroups {
 		if c11has(g.sites, a) && c11has(g.sites, b) {
 			return "c11-race:" + g.name
@@ -163,6 +173,15 @@ func c11race(c *Ctx) {
 	defer os.Remove(bin)
 	logBase := bin + ".log"
 	seen := map[string]bool{}
+	report := func(rr c11raceReport, replay string) {
+		c.Count("race-report:" + rr.sites[0] + " | " + rr.sites[1])
+		if seen[rr.key+rr.sites[0]+rr.sites[1]] {
+			return
+		}
+		seen[rr.key+rr.sites[0]+rr.sites[1]] = true
+		c.Oracle(rr.key, "data race while matching with several jobs: "+rr.sites[0]+" / "+rr.sites[1],
+			map[string]interface{}{"replay": replay, "access_sites": rr.sites}, rr.text, "no data race")
+	}
 	for rep := 0; rep < reps; rep++ {
 		cmd := exec.Command(bin, "worker", "c11race", strconv.FormatInt(c.Seed+int64(rep)*1000, 10), strconv.Itoa(n))
 		cmd.Env = append(os.Environ(), "GORACE=log_path="+logBase+" exitcode=0 halt_on_error=0", "GOMAXPROCS=8")
@@ -175,21 +194,76 @@ func c11race(c *Ctx) {
 			b, _ := os.ReadFile(lf)
 			os.Remove(lf)
 			for _, rr := range c11parseRaces(string(b)) {
-				c.Count("race-report:" + rr.sites[0] + " | " + rr.sites[1])
-				if seen[rr.key+rr.sites[0]+rr.sites[1]] {
-					continue
-				}
-				seen[rr.key+rr.sites[0]+rr.sites[1]] = true
-				c.Oracle(rr.key, "data race while matching with several jobs: "+rr.sites[0]+" / "+rr.sites[1],
-					map[string]interface{}{"replay": fmt.Sprintf("gvh-race worker c11race %d %d  (GORACE=log_path=…; Compare with Jobs in {2,3,8,16})", c.Seed+int64(rep)*1000, n),
-						"access_sites": rr.sites}, rr.text, "no data race")
+				report(rr, fmt.Sprintf("gvh-race worker c11race %d %d  (GORACE=log_path=…; Compare with Jobs in {2,3,8,16})", c.Seed+int64(rep)*1000, n))
 			}
 		}
 		c.Count("race-batch:compare-calls")
 		c.Dist["race-batch:compare-calls"] += n*len(c11raceJobs) - 1
 	}
+	c11cli(c, report)
 	c.Notes = append(c.Notes, fmt.Sprintf("race batch: %d x %d cases x Jobs %v under the race detector in a child process, %.1fs; %d distinct racing access-site pairs",
 		reps, n, c11raceJobs, time.Since(t0).Seconds(), len(seen)))
+}
+
+// c11cli: the same matching through `gedcom diff -jobs N`, the command built with the race detector.
+// Checked: the command succeeds and writes its page; every race report of the run (the matching itself
+// and the diff page, which calls Compare again from its own worker pool with the shared options value).
+func c11cli(c *Ctx, report func(rr c11raceReport, replay string)) {
+	v, _ := os.Getwd()
+	repo := os.Getenv("VERIF_REPO")
+	if repo == "" {
+		repo = "/repo"
+	}
+	bin := filepath.Join(v, ".build", fmt.Sprintf("gedcom-race.%d", os.Getpid()))
+	build := exec.Command("go", "build", "-race", "-o", bin, "./cmd/gedcom")
+	build.Dir = repo
+	if b, err := build.CombinedOutput(); err != nil {
+		c.Oracle("", "the race-detector build of cmd/gedcom failed: the CLI batch cannot run", map[string]string{"error": err.Error()}, string(b), "go build -race ./cmd/gedcom succeeds")
+		return
+	}
+	defer os.Remove(bin)
+	dir, err := os.MkdirTemp("", "c11cli")
+	if err != nil {
+		return
+	}
+	defer os.RemoveAll(dir)
+	r := c.R.Fork("cli")
+	n := c.N(4, 120)
+	for i := 0; i < n; i++ {
+		cs := c11gen(r)
+		l, rt := c11build(cs.left, cs.lfam, 0), c11build(cs.right, cs.rfam, 1000)
+		lf, rf, of := filepath.Join(dir, "l.ged"), filepath.Join(dir, "r.ged"), filepath.Join(dir, "out.html")
+		os.WriteFile(lf, []byte(l.text), 0o644)
+		os.WriteFile(rf, []byte(rt.text), 0o644)
+		os.Remove(of)
+		jobs := []int{8, 1, 2, 16, 3}[i%5]
+		logBase := filepath.Join(dir, "race")
+		cmd := exec.Command(bin, "diff", "-left-gedcom", lf, "-right-gedcom", rf, "-output", of, "-jobs", strconv.Itoa(jobs))
+		cmd.Env = append(os.Environ(), "GORACE=log_path="+logBase+" exitcode=0 halt_on_error=0")
+		outb, err := cmd.CombinedOutput()
+		in := map[string]interface{}{"documents": l.text + "----\n" + rt.text, "command": fmt.Sprintf("gedcom diff -left-gedcom l.ged -right-gedcom r.ged -output out.html -jobs %d", jobs)}
+		st, serr := os.Stat(of)
+		if err != nil || serr != nil || st.Size() == 0 {
+			c.Oracle("", "gedcom diff -jobs N failed or wrote no page", in, fmt.Sprintf("%v: %s", err, c11tail(string(outb), 600)), "exit 0 and a diff page")
+		}
+		c.Eval()
+		c.Count(fmt.Sprintf("cli:gedcom diff -jobs %d", jobs))
+		logs, _ := filepath.Glob(logBase + ".*")
+		for _, lfile := range logs {
+			b, _ := os.ReadFile(lfile)
+			os.Remove(lfile)
+			for _, rr := range c11parseRaces(string(b)) {
+				report(rr, fmt.Sprintf("gedcom (built with -race) diff -jobs %d on the documents of CLI case %d of seed %d", jobs, i, c.Seed))
+			}
+		}
+	}
+}
+
+func c11tail(s string, n int) string {
+	if len(s) > n {
+		return s[len(s)-n:]
+	}
+	return s
 }
 
 var c11raceJobs = []int{2, 3, 8, 16}
@@ -215,6 +289,22 @@ func init() {
 		sort.Strings(keys)
 		for _, k := range keys {
 			fmt.Printf("%6d %s\n", n[k], k)
+		}
+		return 0
+	}
+	// c11gen <seed> <n> <dir>: writes the generator's document pairs to files (for sweeps by hand)
+	workers["c11gen"] = func(args []string) int {
+		if len(args) < 3 {
+			return 2
+		}
+		seed, _ := strconv.ParseInt(args[0], 10, 64)
+		n, _ := strconv.Atoi(args[1])
+		c := NewCtx("C11gen", "quick", seed, "")
+		for i := 0; i < n; i++ {
+			cs := c11gen(c.R)
+			l, rt := c11build(cs.left, cs.lfam, 0), c11build(cs.right, cs.rfam, 1000)
+			os.WriteFile(filepath.Join(args[2], fmt.Sprintf("l%d.ged", i)), []byte(l.text), 0o644)
+			os.WriteFile(filepath.Join(args[2], fmt.Sprintf("r%d.ged", i)), []byte(rt.text), 0o644)
 		}
 		return 0
 	}
